@@ -11,6 +11,7 @@ import (
 	"path/filepath"
 	"regexp"
 	"runtime"
+	"runtime/debug"
 	"strings"
 	"sync"
 	"sync/atomic"
@@ -51,10 +52,16 @@ func c10VolumeN(c *mon.Ctx) int { return c.Pick(150000, 1200000) }
 
 // volTemplate: one certificate with marker bytes at the places that are made different per object.
 func volTemplate() (tmpl []byte, offMod, offSerial, offCN, offSAN int, err error) {
-	k := gen.DefaultKey()
-	nb := k.N.Bytes()
+	// a 512-bit modulus: what matters here is that the keys DIFFER, and the cost of the arithmetic lints (Fermat rounds,
+	// trial division) grows steeply with the size - 150 000 keys of 2048 bits would take minutes
+	nb := make([]byte, 64)
+	for i := range nb {
+		nb[i] = byte(0x9d + 37*i)
+	}
+	nb[0] |= 0x80
+	nb[63] |= 1
 	mark := []byte{0xA5, 0x5A, 0xC3, 0x3C, 0x96, 0x69, 0x0F, 0xF0}
-	copy(nb[100:], mark)
+	copy(nb[24:], mark)
 	n := new(big.Int).SetBytes(nb)
 	name := "h00000000.vol.example.com"
 	s := gen.TLSLeaf(gen.D(2024, 3, 1), name)
@@ -85,6 +92,9 @@ func volObject(tmpl []byte, offMod, offSerial, offCN, offSAN int, i int) []byte 
 func c10VolumeAux(c *mon.Ctx) {
 	out := volOutcome{N: c10VolumeN(c)}
 	t0 := time.Now()
+	// the live heap is a few MB while every call allocates some hundred KB: with the default GC target the collector
+	// runs continuously and its stop-the-world phases serialise the 16 goroutines (measured: 3.5 of 16 cores busy)
+	debug.SetGCPercent(4000)
 	write := func() {
 		out.WallS = time.Since(t0).Seconds()
 		b, _ := json.Marshal(out)
@@ -184,7 +194,7 @@ loop:
 	write()
 }
 
-var volFrameRe = regexp.MustCompile(`github\.com/zmap/zlint/v3/[^\s(]+`)
+var volFrameRe = regexp.MustCompile(`github\.com/zmap/zlint/v3/[\w/.\-]+(?:\(\*?\w+\))?[\w.]*`)
 
 // c10VolumePhase (driver side): runs the plain flavour in -aux volume mode and judges what it wrote.
 func c10VolumePhase(c *mon.Ctx, r *mon.Report, ev *mon.Evidence) []string {
